@@ -180,24 +180,26 @@ Definition p_block (fx : fixes) (docs : list doc) (k : token) (i : ident) (body 
   p_docs fx docs ++ [CIndent; CTok k; CSp; src_id i; CSp; CTok TOpenBrace; CNewline; CInc] ++ body ++
   [CDec; CIndent; CTok TCloseBrace].
 
+(** [for x in xs { f x; write!(","); newline }] *)
+Definition comma_lines {A} (f : A -> list cmd) (l : list A) : list cmd :=
+  flat_map (fun x => f x ++ [CTok TComma; CNewline]) l.
+
+(** The bodies of the loops of [record_decl], [flags_decl], [enum_decl] (up to the comma). *)
+Definition p_field (fx : fixes) (f : field) : list cmd :=
+  p_docs fx (fd_docs f) ++ [CIndent; src_id (fd_id f); CTok TColon; CSp] ++ p_ty (fd_ty f).
+Definition p_flag (fx : fixes) (f : flag) : list cmd := p_docs fx (fl_docs f) ++ [CIndent; src_id (fl_id f)].
+Definition p_enum_case (fx : fixes) (c : enum_case) : list cmd := p_docs fx (ec_docs c) ++ [CIndent; src_id (ec_id c)].
+
 (** [item_type_decl] / [type_decl] *)
 Definition p_item_type_decl (fx : fixes) (d : item_type_decl) : list cmd :=
   match d with
   | DResource docs i ms =>
       p_block fx docs TResourceKeyword i (spaced (p_resource_method fx) true ms)
   | DVariant docs i cs =>
-      p_block fx docs TVariantKeyword i
-        (flat_map (fun c => [CIndent] ++ p_variant_case fx c ++ [CTok TComma; CNewline]) cs)
-  | DRecord docs i fs =>
-      p_block fx docs TRecordKeyword i
-        (flat_map (fun f => p_docs fx (fd_docs f) ++ [CIndent; src_id (fd_id f); CTok TColon; CSp] ++
-                            p_ty (fd_ty f) ++ [CTok TComma; CNewline]) fs)
-  | DFlags docs i fs =>
-      p_block fx docs TFlagsKeyword i
-        (flat_map (fun f => p_docs fx (fl_docs f) ++ [CIndent; src_id (fl_id f); CTok TComma; CNewline]) fs)
-  | DEnum docs i cs =>
-      p_block fx docs TEnumKeyword i
-        (flat_map (fun c => p_docs fx (ec_docs c) ++ [CIndent; src_id (ec_id c); CTok TComma; CNewline]) cs)
+      p_block fx docs TVariantKeyword i (comma_lines (fun c => CIndent :: p_variant_case fx c) cs)
+  | DRecord docs i fs => p_block fx docs TRecordKeyword i (comma_lines (p_field fx) fs)
+  | DFlags docs i fs => p_block fx docs TFlagsKeyword i (comma_lines (p_flag fx) fs)
+  | DEnum docs i cs => p_block fx docs TEnumKeyword i (comma_lines (p_enum_case fx) cs)
   | DAlias docs i k =>
       p_docs fx docs ++ [CIndent; CTok TTypeKeyword; CSp; src_id i; CSp; CTok TEquals; CSp] ++
       match k with TAFunc f => p_func_type f | TAType t => p_ty t end ++ [CTok TSemicolon]
@@ -254,6 +256,9 @@ Definition p_world_item_path (fx : fixes) (p : world_item_path) : list cmd :=
 Definition p_world_ref (w : world_ref) : list cmd :=
   match w with WRIdent i => [src_id i] | WRPackage p => [src_path p] end.
 
+Definition p_include_item (it : include_item) : list cmd :=
+  [CIndent; src_id (ii_from it); CSp; CTok TAsKeyword; CSp; src_id (ii_to it)].
+
 Definition p_world_item (fx : fixes) (w : world_item) : list cmd :=
   match w with
   | WIUse u => p_use fx u
@@ -268,8 +273,7 @@ Definition p_world_item (fx : fixes) (w : world_item) : list cmd :=
       | [] => []
       | _ :: _ =>
           [CSp; CTok TWithKeyword; CSp; CTok TOpenBrace; CNewline; CInc] ++
-          flat_map (fun it => [CIndent; src_id (ii_from it); CSp; CTok TAsKeyword; CSp; src_id (ii_to it);
-                               CTok TComma; CNewline]) items ++
+          comma_lines p_include_item items ++
           [CDec; CIndent; CTok TCloseBrace]
       end ++ [CTok TSemicolon]
   end.
